@@ -168,6 +168,8 @@ def gen_plan(rng, index, tier):
                             k = rng.choice([0, 1, 2, 9])
                             conv[f"{c},{nd}"] = [False] * k + [True] if k < 9 else [False]
                 a["conv"] = conv
+                if rng.random() < 0.3:
+                    a["vectorCoupler"] = True  # the coupled quantity is a list the interface updates in place
         st["tightCouplingSettings"] = tcs
     steps = []
     # truthy returns: the documented halt request at BOC, and truthy values from other hooks
